@@ -11,7 +11,7 @@ void case_impl(Ctx &c, int variant) {
   w.mandatory();
   int depth = (int)c.t.below(9);                 // 0..8, 0 = object 1003h absent
   HistCfg hist; if (depth > 0) hist = add_emcy_hist(w, depth);
-  w.finish();
+  w.finish(variant != 3);
   int NE = 2 + (int)c.t.below(c.thorough ? 31 : 10);   // errors actually used (table always has CO_EMCY_N rows)
   if (NE > CO_EMCY_N) NE = CO_EMCY_N;
   SplitMix tv(c.t.u16());
@@ -48,10 +48,8 @@ void case_impl(Ctx &c, int variant) {
     s.clear_tx();
   };
   int steps = 0, send_faults = 0, from_cb_cnt = 0;
-  while (!c.t.exhausted() && steps < (c.thorough ? 120 : 60)) {
-    steps++; c.ops++;
-    static const uint16_t W[9] = {40, 22, 6, 8, 10, 8, 6, 4, 4};
-    uint32_t op = c.t.weighted(W);
+  int api_resets = 0;
+  auto do_op = [&](uint32_t op) {
     s.clear_tx();
     if (op == 0) {        // set
       int e = (int)c.t.below(NE);                      // error numbers beyond the table are not in the statement (exercised for memory safety in C01)
@@ -87,7 +85,7 @@ void case_impl(Ctx &c, int variant) {
       for (int e = 0; e < CO_EMCY_N; e++) active[e] = false;
       check_frames(exp, "COEmcyReset");
     } else if (op == 3) { // SDO write to 1003h:0
-      if (!(mode == 2 || mode == 3)) continue;
+      if (!(mode == 2 || mode == 3)) return;
       uint8_t v = c.t.below(3) == 0 ? (uint8_t)(1 + c.t.below(255)) : 0;
       uint32_t code = cl.write(0x1003, 0, v, 1);
       VLOG(c, "SDO write 1003h:0 := %u -> %08X", v, code);
@@ -96,7 +94,7 @@ void case_impl(Ctx &c, int variant) {
       else CHECK(c, code == 0x06090030u, "history-write-refused", "writing %u to 1003h:0 answered %08X, expected abort 06090030", v, code);
       s.clear_tx();
     } else if (op == 4) { // read the history through SDO
-      if (!(mode == 2 || mode == 3) || depth == 0) continue;
+      if (!(mode == 2 || mode == 3) || depth == 0) return;
       uint32_t v = 0; uint32_t code = cl.read(0x1003, 0, &v);
       CHECK(c, code == 0 && v == mh.size(), "history-count", "1003h:0 reads %u (abort %08X), expected %zu", v, code, mh.size());
       for (size_t i = 0; i < mh.size(); i++) { code = cl.read(0x1003, (uint8_t)(i + 1), &v); CHECK(c, code == 0 && v == mh[i], "history-newest-first", "1003h:%zu reads %08X (abort %08X), expected %08X (newest first)", i + 1, v, code, mh[i]); }
@@ -124,7 +122,7 @@ void case_impl(Ctx &c, int variant) {
       if (cbran) check_frames(exp, "error set/cleared from inside the mode-change callback");
       else CHECK(c, s.tx.empty(), "one-frame-per-transition", "an NMT state change made the node transmit %zu frame(s)", s.tx.size());
     } else if (op == 6) { // rewrite 1014h
-      if (!(mode == 2 || mode == 3)) continue;
+      if (!(mode == 2 || mode == 3)) return;
       uint32_t nv = c.t.coin() ? (cob ^ 0x80000000u) : ((c.t.coin() ? 0x80000000u : 0) | (0x80u + c.t.below(0x700)));
       uint32_t code = cl.write(0x1014, 0, nv, 4);
       bool ok;
@@ -138,13 +136,34 @@ void case_impl(Ctx &c, int variant) {
       for (auto &t : s.tx) CHECK(c, t.id == 0x700u + s.nodeid, "one-frame-per-transition", "NMT reset made the node transmit %s", t.str().c_str());
       for (int e = 0; e < CO_EMCY_N; e++) active[e] = false;
       s.clear_tx();
+    } else if (op == 9) { // the application resets the node through the API (mode before-start: while the node is still in INITIALISATION): emergencies are cleared silently
+      s.api_begin(); CONmtReset(&s.node->Nmt, c.t.coin() ? CO_RESET_NODE : CO_RESET_COM); s.api_end("CONmtReset"); VLOG(c, "CONmtReset() in mode %d", mode);
+      if (mode != 1) { for (auto &t : s.tx) CHECK(c, t.id == 0x700u + s.nodeid, "one-frame-per-transition", "CONmtReset made the node transmit %s", t.str().c_str()); mode = 2; }
+      else CHECK(c, s.tx.empty(), "one-frame-per-transition", "CONmtReset before the node was started made it transmit %zu frame(s)", s.tx.size());
+      for (int e = 0; e < CO_EMCY_N; e++) active[e] = false;
+      s.clear_tx(); api_resets++;
     } else {              // ticks must not produce EMCY traffic
       for (int i = 0; i < 3; i++) s.step_tick();
       CHECK(c, s.tx.empty(), "one-frame-per-transition", "timer steps made the node transmit %zu frame(s)", s.tx.size());
     }
     check_state("the operation");
+    };
+  // mode before-start: the application sets, clears and resets errors between CONodeInit and CONodeStart (no state before boot-up permits a frame), may
+  // reset the node through the API there, and starts it afterwards
+  if (variant == 3) {
+    mode = 1; int k = 1 + (int)c.t.below(10);
+    for (int i = 0; i < k; i++) { static const uint32_t OPS[8] = {0, 0, 0, 1, 2, 9, 9, 8}; c.ops++; do_op(OPS[c.t.below(8)]); }
+    s.clear_tx(); s.start(); mode = 2;
+    for (auto &t : s.tx) CHECK(c, t.id == 0x700u + s.nodeid, "one-frame-per-transition", "starting the node made it transmit %s", t.str().c_str());
+    s.clear_tx(); check_state("CONodeStart"); c.cls("errors-set-before-the-node-was-started");
+  }
+  while (!c.t.exhausted() && steps < (c.thorough ? 120 : 60)) {
+    steps++; c.ops++;
+    static const uint16_t W[9] = {40, 22, 6, 8, 10, 8, 6, 4, 4}, WB[10] = {40, 22, 6, 8, 10, 8, 6, 4, 4, 5};
+    do_op(variant == 3 ? c.t.weighted(WB) : c.t.weighted(W));
   }
   if (shared_bit || wrapped) c.nontrivial = true;
+  if (api_resets) c.cls("node-reset-through-the-api");
   if (send_faults) c.cls("emcy-frame-refused-by-the-driver");
   if (from_cb_cnt) c.cls("error-changed-from-inside-the-mode-change-callback");
   if (shared_bit) c.cls("two-errors-share-a-register-bit");
@@ -155,17 +174,20 @@ void case_impl(Ctx &c, int variant) {
 void one_case(Ctx &c) { case_impl(c, 0); }
 void faults_case(Ctx &c) { case_impl(c, 1); }
 void cb_case(Ctx &c) { case_impl(c, 2); }
+void prestart_case(Ctx &c) { case_impl(c, 3); }
 
 Registrar reg(Prop{
     "C15",
     "Cases: node id 1..127, emergency table with register bits 0..7 per error (several errors per bit, generic bit used), 2..11 (32) errors in use, history depth 0..8 (0 = 1003h absent); histories of up to 60 (120) ops: "
     "COEmcySet(err[, user data]), COEmcyClr, COEmcyReset(silent?), SDO write 0 / non-zero to 1003h:0, SDO reads of 1003h:0..n, NMT state changes and resets, valid/invalid rewrites of 1014h, ticks; mode send-faults: the CAN driver refuses the frame of a set/clear call - the frame is lost, state, register, count and history change as if it had been sent. "
     "Mode from-mode-change-callback: the application sets or clears an error from inside CONmtModeChange during an NMT transition; the state that permits the frame is the one CONmtGetMode reports at that moment. "
+    "Mode before-start: errors are set, cleared and reset between CONodeInit and CONodeStart (state changes without frames), the application may reset the node there with CONmtReset(), then starts it; CONmtReset() also appears later in the history. "
     "Oracle: reference model after every step: active set (COEmcyGet), count (COEmcyCnt), 1001h bits, EMCY frames (exactly one per real transition, code, updated register byte, 5 manufacturer bytes, identifier = 1014h; none for silent reset, outside PRE-OP/OP or with an invalid COB-ID), history newest-first with its count, clear on write 0, 0609 0030h otherwise. "
     "Non-trivial: two errors sharing a register bit were active together, or the history wrapped. Distinct = distinct decoded choice sequence.",
     {Mode{"random", one_case, false, 1000000, 14000000, 0, 0, 260, 500},
      Mode{"send-faults", faults_case, false, 500000, 6000000, 0, 0, 260, 500},
-     Mode{"from-mode-change-callback", cb_case, false, 300000, 4000000, 0, 0, 260, 500}},
+     Mode{"from-mode-change-callback", cb_case, false, 300000, 4000000, 0, 0, 260, 500},
+     Mode{"before-start", prestart_case, false, 200000, 3000000, 0, 0, 260, 500}},
     {"in a non-silent COEmcyReset only the register byte of the last frame is compared with the final register", "reading history sub-indices beyond the current count is not constrained by the statement and not generated"}});
 
 }  // namespace
